@@ -169,6 +169,9 @@ class Stream:
     exhaustive: Optional[Callable[[], list]] = None   # if given: the complete finite list of cases (no sampling)
     finding_of: Callable[[Any, Result], Optional[str]] = lambda case, res: None
     doc: str = ""
+    # optional: smaller variants of a failing case (drop an operation, halve a list, lower a count ...); used only after a
+    # violation has been found, to hand back a minimal replay (DESIGN.md section 6 step 1)
+    shrink: Optional[Callable[[Any], Any]] = None
 
 
 class CheckRun:
@@ -378,6 +381,7 @@ class CheckRun:
         broken_obl = [(n, d) for n, ok, d in self.obligation_log if not ok]
         if self.oracle_failures:
             sname, case, r = self.oracle_failures[0]
+            case, r = self._shrink(module, sname, case, r)
             path = self._replay("input", sname, case, r, None)
             lines.append(f"VIOLATION property={self.prop} replay={path}")
             violations = len(self.oracle_failures)
@@ -428,6 +432,39 @@ class CheckRun:
               f"obligations={self.discharged}/{self.obligations} known={len(seen_known)} violations={violations} "
               f"wall={wall:.1f}s")
         return 1 if violations else 0
+
+    def _shrink(self, module, sname, case, r, budget_s=60, max_tries=200):
+        """Greedy delta-debugging on the first failing case: keep any smaller variant on which the direct oracle still
+        fails (and which is not merely a listed finding).  Bounded; never runs on a clean tree."""
+        try:
+            stream = [s for s in module.streams(self.tier) if s.name == sname][0]
+        except Exception:
+            return case, r
+        if stream.shrink is None:
+            return case, r
+        t0, tries, steps = time.time(), 0, 0
+        improved = True
+        while improved and time.time() - t0 < budget_s and tries < max_tries:
+            improved = False
+            try:
+                candidates = list(stream.shrink(case))
+            except Exception:
+                break
+            for c in candidates:
+                tries += 1
+                if time.time() - t0 > budget_s or tries > max_tries:
+                    break
+                try:
+                    rc = stream.run(c)
+                except Exception:
+                    continue
+                fid = stream.finding_of(c, rc)
+                if not rc.ok and not (fid and is_open_finding(self.prop, fid)):
+                    case, r, improved, steps = c, rc, True, steps + 1
+                    break
+        if steps:
+            self.notes.append(f"replay minimised by {steps} shrinking steps ({tries} oracle runs)")
+        return case, r
 
     def _replay(self, kind, sname, case, r, obligation):
         d = {"property": self.prop, "kind": kind, "seed": self.seed, "tier": self.tier, "stream": sname, "case": case,
